@@ -291,6 +291,41 @@ func VerifC14_HookQueryCondition() {
 	rt.Reach("hookcond-end")
 }
 
+// a subscriber that has stopped reading (its feed is full) costs the other
+// subscriptions nothing: a matching write still reaches every feed with room,
+// whatever the order in which the subscriptions were made
+func VerifC14_FullFeedOfAnotherSubscriber() {
+	rt.NoTimers()
+	c14Setup()
+	iface := NewInterface(&Options{Local: true, Internal: true})
+	q := query.New("t:a/")
+	stalledFirst := rt.Bool("stalled-subscription-made-first")
+	var stalled, attentive *Subscription
+	var err1, err2 error
+	if stalledFirst {
+		stalled, err1 = iface.Subscribe(q)
+		attentive, err2 = iface.Subscribe(q)
+	} else {
+		attentive, err1 = iface.Subscribe(q)
+		stalled, err2 = iface.Subscribe(q)
+	}
+	rt.Assert(err1 == nil && err2 == nil, "fullfeed/subscribe-ok")
+	if err1 != nil || err2 != nil {
+		return
+	}
+	filler := c14NewRec("a/filler", 0, false, false)
+	for len(stalled.Feed) < cap(stalled.Feed) {
+		stalled.Feed <- filler
+	}
+	r := c14NewRec("a/x", 1, false, false)
+	rt.Assert(iface.Put(r) == nil, "fullfeed/put-ok")
+	rt.Assert(len(attentive.Feed) == 1, "fullfeed/delivered-to-the-subscription-with-room")
+	rt.Assert(len(stalled.Feed) == cap(stalled.Feed), "fullfeed/full-feed-unchanged")
+	rt.Assert(iface.Delete("t:a/x") == nil, "fullfeed/delete-ok")
+	rt.Assert(len(attentive.Feed) == 2, "fullfeed/delete-delivered-to-the-subscription-with-room")
+	rt.Reach("fullfeed-end")
+}
+
 func VerifC14_Hooks() {
 	rt.NoTimers()
 	c := c14Setup()
